@@ -16,10 +16,12 @@ heap (`viewNet`).  All theorems: every heap / history / size / hyper-parameter /
 -/
 import QV.Lemmas.StoreIO
 import QV.Lemmas.PhaseAux
+import QV.Lemmas.Optim
+import QV.Model.Density
 
 namespace QV.Props
 namespace C20
-open QV QV.Store QV.PhaseAux
+open QV QV.Store QV.PhaseAux QV.Optim
 
 /-! ### specification vocabulary -/
 
@@ -456,7 +458,84 @@ theorem C20_phase_aux_bias_zero (gs : List α) (hg : ∀ g ∈ gs, IsPhaseAuxGra
   have h0 : ∀ g ∈ gs, g = 0 := fun g hm => C20_phase_aux_grad_zero g (hg g hm)
   exact ⟨fun c => sgdRun_zero c gs h0 _ rfl (Or.inl rfl), fun c => adamRun_zero c gs h0 _ rfl rfl rfl⟩
 
+/-- **C20_phase_aux_bias_zero_any_rule.** "ANY optimizer": for every update rule `r` that has a zero-fixed invariant
+(`ZeroFixed`: the invariant forces the coordinate to be `0` and survives a zero-gradient step whatever that step's
+hyper-parameters are), started in a state satisfying the invariant, and every sequence of steps whose gradients
+are phase-aux gradients of the code (`IsPhaseAuxGrad`) — with hyper-parameters that may change from step to step
+(a learning-rate scheduler) — the coordinate is `0` at the end AND after every single step (`trace`: what a
+callback sees at each `on_batch_end`). -/
+theorem C20_phase_aux_bias_zero_any_rule {κ σ : Type} (r : Rule α κ σ) (Inv : σ → Prop) (h : ZeroFixed r Inv)
+    (s0 : σ) (h0 : Inv s0) (cgs : List (κ × α)) (hg : ∀ cg ∈ cgs, IsPhaseAuxGrad cg.2) :
+    r.param (r.run s0 cgs) = 0 ∧ (∀ x ∈ r.trace s0 cgs, x = 0) ∧ (r.trace s0 cgs).length = cgs.length := by
+  have hz : ∀ cg ∈ cgs, cg.2 = 0 := fun cg hm => C20_phase_aux_grad_zero cg.2 (hg cg hm)
+  exact ⟨h.run_zero cgs hz s0 h0, h.trace_zero cgs hz s0 h0, trace_length r s0 cgs⟩
+
+/-- **C20_phase_aux_bias_zero_torch_rules.** The instances: the single-tensor rules of `torch.optim.SGD` (weight
+decay, momentum, dampening, Nesterov, maximize), `Adam` / `AdamW` (coupled or decoupled weight decay, amsgrad,
+maximize), `Adadelta`, `Adagrad` (lr decay, any initial accumulator), `RMSprop` (momentum, centered), `Adamax`,
+`NAdam` (momentum decay, coupled / decoupled decay) — each started from the optimizer's initial state for a
+coordinate that is `0` (the accumulators may hold ANY values, only the momentum-like buffers are `0` as torch
+creates them), with arbitrary and arbitrarily changing hyper-parameters: the phase auxiliary bias is `0` after
+every step. (RAdam, Rprop, ASGD are exercised by the correspondence check only; LBFGS and SparseAdam cannot be
+used with `fit`, which calls `optimizer.step()` without a closure and with dense gradients.) -/
+theorem C20_phase_aux_bias_zero_torch_rules :
+    (∀ cgs : List (SGDX α × α), (∀ cg ∈ cgs, IsPhaseAuxGrad cg.2) →
+        ∀ x ∈ sgdRule.trace ⟨0, none⟩ cgs, x = 0) ∧
+    (∀ (v vmax : α) (t : ℕ) (cgs : List (AdamX α × α)), (∀ cg ∈ cgs, IsPhaseAuxGrad cg.2) →
+        ∀ x ∈ adamRule.trace ⟨0, 0, v, vmax, t⟩ cgs, x = 0) ∧
+    (∀ (sq acc : α) (cgs : List (AdadeltaCfg α × α)), (∀ cg ∈ cgs, IsPhaseAuxGrad cg.2) →
+        ∀ x ∈ adadeltaRule.trace ⟨0, sq, acc⟩ cgs, x = 0) ∧
+    (∀ (acc0 : α) (t : ℕ) (cgs : List (AdagradCfg α × α)), (∀ cg ∈ cgs, IsPhaseAuxGrad cg.2) →
+        ∀ x ∈ adagradRule.trace ⟨0, acc0, t⟩ cgs, x = 0) ∧
+    (∀ (sq gavg : α) (cgs : List (RMSpropCfg α × α)), (∀ cg ∈ cgs, IsPhaseAuxGrad cg.2) →
+        ∀ x ∈ rmspropRule.trace ⟨0, sq, gavg, 0⟩ cgs, x = 0) ∧
+    (∀ (u : α) (t : ℕ) (cgs : List (AdamaxCfg α × α)), (∀ cg ∈ cgs, IsPhaseAuxGrad cg.2) →
+        ∀ x ∈ adamaxRule.trace ⟨0, 0, u, t⟩ cgs, x = 0) ∧
+    (∀ (v mp : α) (t : ℕ) (cgs : List (NAdamCfg α × α)), (∀ cg ∈ cgs, IsPhaseAuxGrad cg.2) →
+        ∀ x ∈ nadamRule.trace ⟨0, 0, v, mp, t⟩ cgs, x = 0) :=
+  ⟨fun cgs hg => (C20_phase_aux_bias_zero_any_rule _ _ zeroFixed_sgd _ ⟨rfl, Or.inl rfl⟩ cgs hg).2.1,
+   fun _ _ _ cgs hg => (C20_phase_aux_bias_zero_any_rule _ _ zeroFixed_adam _ ⟨rfl, rfl⟩ cgs hg).2.1,
+   fun _ _ cgs hg => (C20_phase_aux_bias_zero_any_rule _ _ zeroFixed_adadelta _ rfl cgs hg).2.1,
+   fun _ _ cgs hg => (C20_phase_aux_bias_zero_any_rule _ _ zeroFixed_adagrad _ rfl cgs hg).2.1,
+   fun _ _ cgs hg => (C20_phase_aux_bias_zero_any_rule _ _ zeroFixed_rmsprop _ ⟨rfl, rfl⟩ cgs hg).2.1,
+   fun _ _ cgs hg => (C20_phase_aux_bias_zero_any_rule _ _ zeroFixed_adamax _ ⟨rfl, rfl⟩ cgs hg).2.1,
+   fun _ _ _ cgs hg => (C20_phase_aux_bias_zero_any_rule _ _ zeroFixed_nadam _ ⟨rfl, rfl⟩ cgs hg).2.1⟩
+
+/-- the hypothesis `ZeroFixed` is not automatic: plain gradient descent with a constant drift term — a rule that moves a
+zero coordinate under a zero gradient — has no zero-fixed invariant containing its zero state (so the generic theorem
+cannot be instantiated for it, as it should). -/
+theorem C20_zeroFixed_not_automatic (drift : α) (hd : drift ≠ 0) :
+    ¬ ∃ Inv : α → Prop, Inv 0 ∧ ZeroFixed (⟨fun (_ : Unit) p g => p + (-g) + drift, fun p => p⟩ : Rule α Unit α) Inv := by
+  rintro ⟨Inv, h0, h⟩
+  have h1 := h.step_zero () 0 h0
+  have h2 := h.param_zero _ h1
+  simp at h2
+  exact hd h2
+
 end numeric
+
+/-! ### C20.6' — scope of the clause: a module-built phase network may carry a non-zero auxiliary bias -/
+
+section scope
+variable {α : Type} [Add α] [Mul α] [Neg α] [Sub α] [Div α] [Zero α] [One α] [Transc α]
+
+/-- **C20_phase_aux_bias_unused.** `DensityMatrix(module=m)` copies `m` — INCLUDING a non-zero `aux_bias` — into the phase
+network (`C20_module`: the copy's contents are the module's), so for such a state "stays zero" has nothing to say
+(`C20_phase_aux_bias_zero*` assume a zero start). What makes the clause harmless there: the phase network's auxiliary
+bias enters neither `pi` nor `rho` — replacing it by ANY other vector leaves both unchanged (the model of `pi` reads
+`U_μ` only, `gamma` reads `W, b, c` only, as the code does). -/
+theorem C20_phase_aux_bias_unused {n h a : ℕ} (am ph : PRBM α n h a) (d' : Fin a → α) (v vp : Fin n → α) :
+    Density.rho am { ph with d := d' } v vp = Density.rho am ph v vp ∧
+    Density.pi am { ph with d := d' } v vp = Density.pi am ph v vp ∧
+    (∀ s, PRBM.gamma { ph with d := d' } s v vp = PRBM.gamma ph s v vp) :=
+  ⟨rfl, rfl, fun _ => rfl⟩
+
+end scope
+
+/-- … and the zero start IS needed: under weight decay a NON-zero coordinate moves although all its gradients are zero
+(one SGD step, `lr = 1`, `weight_decay = 1`: `2 ↦ 0`). -/
+example : (sgdStep (α := ℝ) ⟨1, 0, 0, 1, false, false, true⟩ ⟨2, none⟩ 0).p = 0 := by
+  norm_num [sgdStep]
 
 /-! ### non-vacuity -/
 
